@@ -51,6 +51,22 @@ func (c compositeMatcher) Matches(request *heimdall.Request, keys, values []stri
 	return nil
 }
 
+// anyOfMatcher is satisfied, if at least one of its matchers is satisfied.
+// An empty anyOfMatcher is always satisfied.
+type anyOfMatcher []RouteMatcher
+
+func (c anyOfMatcher) Matches(request *heimdall.Request, keys, values []string) error {
+	var err error
+
+	for _, matcher := range c {
+		if err = matcher.Matches(request, keys, values); err == nil {
+			return nil
+		}
+	}
+
+	return err
+}
+
 type schemeMatcher string
 
 func (s schemeMatcher) Matches(request *heimdall.Request, _, _ []string) error {
@@ -149,7 +165,9 @@ func createMethodMatcher(methods []string) (methodMatcher, error) {
 	return slicex.Subtract(methods, tbr), nil
 }
 
-func createHostMatcher(hosts []config.HostMatcher) (RouteMatcher, error) {
+// createHostMatcher creates the matchers for the given host expressions. The request host
+// has to be matched by any of them. So, the result must be used as anyOfMatcher.
+func createHostMatcher(hosts []config.HostMatcher) (compositeMatcher, error) {
 	matchers := make(compositeMatcher, len(hosts))
 
 	for idx, host := range hosts {
